@@ -102,7 +102,7 @@ CHECKS = {
                  "Three builds with DSPLIB_FFT_CACHE_SIZE 1, 2, 4. Non-trivial: >= 1 eviction; distinct by (capacity, request sequence). states = distinct "
                  "(capacity, complex key list, real key list); transitions = distinct (state, request, state')."),
         "assumptions": ["the cache-access events and key lists come from the DSPLIB_VERIF hook in lib/fft/fft.cpp / lib/lru-cache.h (read-only, add-only)",
-                        "the reference LRU is driven by the accesses that happened (it does not predict which sub-plans the planner asks for) and, in addition, counts a completed top-level fft/rfft/ifft/irfft/plan-construction request as a use of its length: on a tree that looks every request up this is a no-op (probe request_not_most_recent_in_event_model = 0)",
+                        "the reference LRU is driven by the accesses that happened (it does not predict which sub-plans the planner asks for) and, in addition, counts a top-level fft/rfft/ifft/irfft/plan-construction request that was answered WITHOUT any cache access as a use of the (cache, length) the same request asked for when it last consulted a cache in this thread (learned, not assumed): on a tree that looks every request up this never fires (probe request_not_most_recent_in_event_model = 0)",
                         "retention clause is checked for single-length requests (fft, rfft, ifft, irfft): repeated immediately they must cause no miss event",
                         "results are compared with the same call in a fresh OS thread (tolerance 1e-9 of scale); a kept plan re-solving its first input must "
                         "reproduce its first output bit for bit"],
